@@ -13,6 +13,7 @@ import (
 	"runtime"
 	"sort"
 	"sync"
+	"github.com/deepteams/webp/internal/verifhook"
 )
 
 // numPredictors is the number of VP8L spatial predictors to evaluate (0-13).
@@ -395,6 +396,7 @@ func ResidualImage(argb []uint32, width, height, bits, quality int, residualsBuf
 	if numTiles >= 16 {
 		// Parallel predictor selection: partition tile rows across goroutines.
 		numWorkers := runtime.GOMAXPROCS(0)
+		numWorkers = verifhook.Workers("lossless.encode_predictor", numWorkers)
 		if numWorkers > tileYSize {
 			numWorkers = tileYSize
 		}
@@ -725,6 +727,7 @@ func ColorSpaceTransform(argb []uint32, width, height, bits, quality int) []uint
 		// Parallel cross-color transform: tiles don't overlap, so both
 		// selection and application can run independently per tile.
 		numWorkers := runtime.GOMAXPROCS(0)
+		numWorkers = verifhook.Workers("lossless.encode_predictor.2", numWorkers)
 		if numWorkers > tileYSize {
 			numWorkers = tileYSize
 		}
